@@ -12,3 +12,5 @@ import UgoVerif.Props.C09
 import UgoVerif.Props.C12
 import UgoVerif.Props.C14
 import UgoVerif.Props.C19
+import UgoVerif.Props.C04
+import UgoVerif.Props.C18
